@@ -165,6 +165,9 @@ type bundle struct {
 	// closures returned by the library, shared by all callers of the bundle
 	invT, invB, invK   func(float64) float64
 	genT               func(*rand.Rand) float64
+	loess              func(float64) float64
+	pr                 fit.PolynomialRegressionResult
+	vsqrt              func([]float64) []float64
 	levels             []float64
 	lin                *scale.Linear
 	lg                 *scale.Log
@@ -387,6 +390,9 @@ func newBundle(seed uint64) *bundle {
 	b.invB = stats.InvCDF(stats.BinomialDist{N: b.n, P: b.q})
 	b.invK = stats.InvCDF(b.kde)
 	b.genT = stats.Rand(stats.TDist{V: 6})
+	b.loess = fit.LOESS(b.grid[:5], b.ys[:5], 1, 0.9)
+	b.pr = fit.PolynomialRegression(b.grid, b.ys[:len(b.grid)], nil, 2)
+	b.vsqrt = vec.Vectorize(math.Sqrt)
 	b.levels = b.carveF("levels", rng, []float64{0.03, 0.2, 0.41, 0.5, 0.77, 0.9, 0.99, b.y})
 	return b
 }
@@ -530,6 +536,14 @@ var c20Inventory = []entry{
 		r := rand.New(rand.NewSource(b.rseed + 1))
 		e.F(b.genT(r))
 		e.F(b.genT(r))
+	}},
+	{"shared fit results and closures", []string{"fit.LOESS", "fit.PolynomialRegression", "vec.Vectorize"}, "fit", func(b *bundle, e *enc) {
+		// results obtained when the bundle was built, used now: after any
+		// number of other fits, and by many callers at once
+		qs := []float64{-2.5, -1, 0.25, 1, 2.5, 6}
+		e.each(len(qs), 2, func(i int) []float64 { return []float64{b.loess(qs[i]), b.pr.F(qs[i])} })
+		e.Fs(b.pr.Coefficients)
+		e.Fs(b.vsqrt(b.xpos))
 	}},
 	{"Rand(generic)", []string{"stats.Rand", "stats.NormalDist.Rand"}, "stats", func(b *bundle, e *enc) {
 		r := rand.New(rand.NewSource(b.rseed))
